@@ -473,6 +473,71 @@ func runC17(c *Ctx) {
 		}
 		return false, legacy, migrated, in, "same"
 	}
+	// ---- M-golden: what a few legacy templates denote, from the legacy documentation rather than from the implementation ----
+	{
+		golden := [][2]string{
+			{`@(WORD("bee cat dog", 2))`, "cat"}, {`@(WORD("bee cat dog", -1))`, "dog"}, {`@(WORD("bee cat dog", -2))`, "cat"}, {`@(WORD("bee cat dog", 1))`, "bee"},
+			{`@(FIELD("a,b,c", 2, ","))`, "b"}, {`@(FIELD("a,b,c", 1, ","))`, "a"}, {`@(LEFT("abcdef", 2))`, "ab"}, {`@(RIGHT("abcdef", 2))`, "ef"}, {`@(RIGHT("abcdefghijkl", 2 ^ 2))`, "ijkl"},
+			{`@(WORD_SLICE("bee cat dog", 2))`, "cat dog"}, {`@(WORD_SLICE("bee cat dog", 1, 3))`, "bee cat"}, {`@(WORD_COUNT("bee cat dog"))`, "3"}, {`@(FIRST_WORD("bee cat"))`, "bee"},
+			{`@(SUM(1, 2) * 3)`, "9"}, {`@(POWER(1 + 1, 3))`, "8"}, {`@(SUM(DAY(DATE(2020, 3, 15)), 1) + 1)`, "17"}, {`@(DAY(DATE(2020, 3, 15)) + 1)`, "16"}, {`@(MONTH(DATE(2020, 3, 15)) * 2)`, "6"},
+			{`@(LEN("hello"))`, "5"}, {`@(UPPER("a") & LOWER("B"))`, "Ab"}, {`@(CONCATENATE("a", "b") = "ab")`, "TRUE"}, {`@(ABS(-3) + 1)`, "4"}, {`@(MAX(1, 5) - MIN(2, 3))`, "3"},
+			{`@(REPT("ab", 2))`, "abab"}, {`@(SUBSTITUTE("hello", "l", "L"))`, "heLLo"}, {`@(PROPER("hello world"))`, "Hello World"}, {`@(IF(1 > 2, "a", "b"))`, "b"},
+			{`@(1 + 2 * 3)`, "7"}, {`@(-2 ^ 2)`, "4"}, {`@((1 + 2) & "x")`, "3x"}, {`@(10 / 4)`, "2.5"},
+		}
+		for _, gc := range golden {
+			m, err := expressions.MigrateTemplate(gc[0], nil)
+			c.Count("check:M-golden")
+			desc := map[string]any{"legacy": gc[0], "migrated": m, "denotes": gc[1]}
+			if err != nil {
+				desc["error"] = err.Error()
+				c.Fail("monitor", "M-golden", "golden-not-migrated", "a documented legacy template does not migrate", desc)
+				continue
+			}
+			got, ok := c17Eval(env, ctx, m)
+			c.Eval("golden|" + gc[0])
+			if ok && !strings.EqualFold(got, gc[1]) {
+				desc["value"] = got
+				c.Fail("monitor", "M-golden", "golden-meaning-changed:"+strings.ToLower(strings.TrimFunc(strings.SplitN(gc[0], "(", 3)[1], func(r rune) bool { return r == '@' || r == '-' })), "a legacy template migrates to something that does not evaluate to what the legacy documentation says it denotes", desc)
+			}
+		}
+	}
+	// ---- M-text: the text around an expression is unchanged, whatever it starts with -------------------------------------
+	{
+		exprs := []string{"contact.gender", "flow.x", "contact", "contact.name", "step.value", "SUM(1, 2)", "contact.age + 1", "\"x\"", "flow.x.category", "date.now"}
+		afters := []string{"s there", "_x", "1", ".b", ". Hi", " x", "", ".", "é", "٣", "(", "@", "..", ".-", "-", "'s", ".5"}
+		for _, ex := range exprs {
+			for _, after := range afters {
+				for _, before := range []string{"", "a", "Hi "} {
+					legacy := before + "@(" + ex + ")" + after
+					m, err := expressions.MigrateTemplate(legacy, nil)
+					c.Count("check:M-text")
+					if err != nil {
+						continue
+					}
+					// the migrated template must consist of the same text before, one expression, and the same text after: read it
+					// back with the new scanner
+					var bodies []string
+					nexpr := 0
+					excellent.VisitTemplate(m, nil, false, func(tt excellent.XTokenType, tok string) error {
+						if tt == excellent.BODY {
+							bodies = append(bodies, tok)
+						} else {
+							nexpr++
+							bodies = append(bodies, "\x00")
+						}
+						return nil
+					})
+					got := strings.Join(bodies, "")
+					want := before + "\x00" + after
+					c.Eval("text|" + ex + "|" + after)
+					if nexpr != 1 || got != want {
+						c.Fail("monitor", "M-text", "surrounding-text-changed", "the text around a migrated expression is not the text around the legacy expression (it was taken into the expression, or lost)",
+							map[string]any{"legacy": legacy, "migrated": m, "read_back": strings.ReplaceAll(got, "\x00", "<expr>"), "expected": strings.ReplaceAll(want, "\x00", "<expr>")})
+					}
+				}
+			}
+		}
+	}
 	g := &legacyGen{r: r}
 	// K: the operator core against the model
 	for i := 0; i < c.N(3000, 150000); i++ {
